@@ -73,6 +73,7 @@ func (f *PostProcessorRegistrationDelegate) applyDefinitionRegistryPostProcessor
 		for name, component := range components {
 			go func(name string, component any) {
 				defer wg.Done()
+				verifScanYield(name)
 				err := processor.PostProcessDefinitionRegistry(factory.GetDefinitionRegistry(), component, name)
 				if err != nil {
 					errsMu.Lock()
